@@ -392,6 +392,10 @@ def mode_is_writable(kind: str, mode: Optional[str]) -> bool:
 
 PATHISH = ("_abs_path(", "_gpath", ".name", "_base_dir", "to_meta_base_path(", "to_data_node_path(")
 PATH_PARAMS = {"path", "source", "dest", "src", "dst", "target", "target_path", "name", "key", "gpath", "prefix_path"}
+# confirmed exceptions (one line of reason each)
+PREFIX_TEST_OK = {
+    "ih5.overlay.IH5Node._rel_path": "internal usage check (RuntimeError 'Invalid usage'): callers pass paths resolved from this very node; a sibling-prefix path cannot arrive here",
+}
 
 
 def r_path_prefix_tests(P, rep, ctx, rule: str, modules):
@@ -421,6 +425,9 @@ def r_path_prefix_tests(P, rep, ctx, rule: str, modules):
                 return any(k in t for k in PATHISH) or (isinstance(e, ast.Name) and e.id in PATH_PARAMS and e.id in fi.params)
 
             if not (pathish(recv, c.func.value) and pathish(arg, c.args[0])):
+                continue
+            if fi.qual in PREFIX_TEST_OK:
+                rep.info(f"{rule}: prefix test in {fi.qual} is a listed exception: {PREFIX_TEST_OK[fi.qual]}")
                 continue
             n += 1
             closed = arg.endswith("+ '/'") or arg.endswith("/'") or "rstrip('/') + '/'" in arg or arg.endswith(".parent") or "+ '/'" in arg
